@@ -791,6 +791,31 @@ def ctor_shape_check(tree, cls):
         if isinstance(n, (ast.FunctionDef, ast.AsyncFunctionDef)) and n.name in (
                 "__ne__", "__setattr__", "__getattr__", "__getattribute__", "__new__", "__init_subclass__", "__set_name__", "__delattr__"):
             raise Fail("%s defines %s: attribute access / inequality is no longer the default the identity model assumes" % (cls, n.name), n)
+    # outside the constructor (setters, mutators) only TTL, creation time and the flush/QU flag may be written: `__hash__` is
+    # cached at construction, so a later write to an identity attribute (`self.class_ |= _CLASS_UNIQUE` in the `unicast` setter)
+    # changes `__eq__` under a stale hash
+    mutable = {"ttl", "created", "unique"}
+    for m in cdef.body:
+        if not isinstance(m, (ast.FunctionDef, ast.AsyncFunctionDef)) or m.name in ("__init__",) or (cls == "DNSEntry" and m.name == "_set_class"):
+            continue
+        for n in ast.walk(m):
+            tgts = []
+            if isinstance(n, ast.Assign):
+                tgts = n.targets
+            elif isinstance(n, (ast.AugAssign, ast.AnnAssign)):
+                tgts = [n.target]
+            elif isinstance(n, ast.Delete):
+                tgts = n.targets
+            for t in tgts:
+                for x in ast.walk(t):
+                    if isinstance(x, ast.Attribute) and ast.unparse(x.value) == "self" and isinstance(x.ctx, (ast.Store, ast.Del)) and x.attr not in mutable:
+                        raise Fail("%s.%s writes self.%s after construction: `%s` (identity attributes and the cached hash are fixed by the constructor)"
+                                   % (cls, m.name, x.attr, ast.unparse(n).split("\n")[0]), n)
+            if isinstance(n, ast.Call) and ast.unparse(n.func) in ("setattr", "object.__setattr__", "delattr", "object.__delattr__") \
+                    and n.args and ast.unparse(n.args[0]) == "self":
+                raise Fail("%s.%s sets an attribute of self dynamically: `%s`" % (cls, m.name, ast.unparse(n)), n)
+            if isinstance(n, ast.Call) and ast.unparse(n.func) == "self._set_class":
+                raise Fail("%s.%s calls self._set_class after construction" % (cls, m.name), n)
     fns = [cls + ".__init__"] + ([cls + "._set_class"] if cls == "DNSEntry" else [])
     for q in fns:
         fn = find_def(tree, q)
